@@ -283,7 +283,7 @@ func cmdCheck(args []string) int {
 	cov.OutOfScope = spec.OutOfScope
 	cov.Rule = "one evaluation = one solver-decided assertion obligation (negated assertion under the path condition); a case is one complete feasible path of a harness through the real SSA; non-trivial = the path carries at least one solver-decided branch or scheduler decision and reaches an assertion"
 	cov.CheckerCmd = fmt.Sprintf("./check %s %s", id, tier)
-	cov.TrustedBase = []string{"go/ssa (x/tools v0.29.0) lowering of /repo's current source", "symgo interpreter semantics (validated per run against the native build on sampled path models)", "z3 4.8.12 verdicts (QF_BV); queries z3 answers unknown are re-decided by cvc5 1.0 --solve-bv-as-int=sum (counts reported)", "models/stubs listed under stubs"}
+	cov.TrustedBase = []string{"go/ssa (x/tools v0.29.0) lowering of /repo's current source", "symgo interpreter semantics (validated per run against the native build on sampled path models)", "z3 5.1.0 (z3-new) verdicts (QF_BV; z3 4.8.12 stalled on nested ite chains and is not used); queries z3 answers unknown are re-decided by cvc5 1.0 --solve-bv-as-int=sum (counts reported)", "models/stubs listed under stubs"}
 
 	var groups []Group
 	for _, g := range spec.Groups {
@@ -362,6 +362,21 @@ func cmdCheck(args []string) int {
 		var jobs []job
 		for _, fn := range hs {
 			if !onlyRe.MatchString(fn.Name()) {
+				continue
+			}
+			if len(t.Families) > 0 {
+				for _, fam := range t.Families {
+					pm := map[string]int64{}
+					for a, b := range cfg.Params {
+						pm[a] = b
+					}
+					tag := ""
+					for _, k := range sortedKeys(fam) {
+						pm[k] = fam[k]
+						tag += fmt.Sprintf("%s=%d,", k, fam[k])
+					}
+					jobs = append(jobs, job{fn, pm, "[" + strings.TrimSuffix(tag, ",") + "]"})
+				}
 				continue
 			}
 			if len(t.Sweep) == 0 {
